@@ -81,6 +81,12 @@ def _one(args):
         stale = apply_edits(tmp, variant['edits'])
         if stale:
             return variant['id'], 'stale', stale
+        if variant.get('patch'):
+            import subprocess
+            r = subprocess.run(['patch', '-p1', '-s', '--no-backup-if-mismatch', '-d', tmp, '-i', variant['patch']],
+                               capture_output=True, text=True)
+            if r.returncode != 0:
+                return variant['id'], 'stale', 'patch does not apply: ' + (r.stdout + r.stderr).strip()[:120]
         # must still parse
         import ast
         for ed in variant['edits']:
